@@ -268,7 +268,8 @@ def main(argv=None):
             'distinct_nontrivial': distinct + int(extra.get('distinct_nontrivial', 0)),
             'rule': mod.RULE,
             'samples': agg['samples'][:3] or [{'note': 'no sample kept'}],
-            'exhaustive': bool(extra.get('exhaustive', False)),
+            # a finite sub-space counts as enumerated completely only if every scheduled run of this invocation finished
+            'exhaustive': bool(extra.get('exhaustive', False)) and st['skipped_for_budget'] == 0 and not agg['harness'] and (args.n is None or args.n >= plan['n']),
             'simulated_runs': agg['evaluations'],
             'nontrivial_runs': agg['nontrivial'],
             'distinct_trace_digests': distinct,
